@@ -513,6 +513,8 @@ impl Simulation {
                 Ok(Some(t)) if t == target_time => return Ok(()),
                 // No actions are scheduled before or at the target time.
                 Ok(None) => {
+                    #[cfg(feature = "verif-hooks")]
+                    crate::verif_hooks::delay(crate::verif_hooks::site::T1);
                     // Update the simulation time.
                     self.time.write(target_time);
                     if let SyncStatus::OutOfSync(lag) = self.clock.synchronize(target_time) {
